@@ -96,6 +96,9 @@ func (Engine) Generate(r *simcore.RNG, tier string, idx int) *simcore.Plan {
 	p.Config["cl"] = cl
 	dust := r.Chance(0.3)
 	faults := idx%2 == 1
+	if idx%4 == 3 {
+		p.Config["spec"] = 60 + int64(idx/4%5)*60 // permille of blocks first executed speculatively on a discarded branch (simchain.Node.Spec)
+	}
 	n := int(r.Range(20, 55))
 	sweeps := 0
 	for i := 0; i < n; i++ {
@@ -364,6 +367,12 @@ func (Engine) Execute(run *simcore.Run) {
 		cg.Params.IsPermissionlessPoolCreationEnabled = true
 		gs[cltypes.ModuleName] = cdc.MustMarshalJSON(&cg)
 	}})
+	n.Spec = run.Plan.Cfg("spec", 0)
+	defer func() {
+		for i := 0; i < n.Specs; i++ {
+			run.Fault("speculative-block-discarded")
+		}
+	}()
 	w.n = n
 	w.baseSupply = w.supplyWithOffset(n.QueryCtx())
 
@@ -1026,11 +1035,13 @@ func (w *world) build(st simcore.Step) (sdk.Msg, func(simchain.Result), bool) {
 // Between refreshes the property allows one base unit per connected lock.
 func (w *world) stakeOracle(ctx sdk.Context, op string, exact bool) bool {
 	n, run := w.n, w.run
-	if w.slashed {
+	if w.slashed && !exact {
 		// C11 does not speak of slashing. Once a validator has been slashed its shares are no longer worth one
 		// token each (every conversion of the refresh rounds), locks are cut by whole shares worth up to a
-		// multiplier each, and the concentrated multiplier update can fail as a whole: the stake oracles are
-		// not evaluated for the rest of such a run. Supply, markers, lock records and the refusals still are.
+		// multiplier each, and the concentrated multiplier update can fail as a whole: between refreshes the stake
+		// oracles are not evaluated for the rest of such a run. Right after a refresh the classic denominations
+		// still are (below), a few units wide: the refresh is what re-establishes "stake tracks locks" after a slash.
+		// Supply, markers, lock records and the refusals are checked as before.
 		run.Probe("stake-oracles-off-after-slash")
 		return true
 	}
@@ -1066,6 +1077,19 @@ func (w *world) stakeOracle(ctx sdk.Context, op string, exact bool) bool {
 			class := "classic"
 			if denom == w.clDenom {
 				class = "concentrated"
+			}
+			if exact && w.slashed {
+				if class != "classic" {
+					continue
+				}
+				// share <-> token conversions at an exchange rate below one truncate on the way in and on the way out
+				run.Max("max/stake-after-refresh-after-slash-milliunits", int64(milli))
+				if diff.Cmp(big.NewRat(4, 1)) >= 0 {
+					run.Fail("C11", "stake-after-refresh", "classic/after-slash", "height %d, right after the epoch refresh (a validator was slashed earlier in this run): intermediary account (%s, validator %d) has %s staked, the %d locks delegated through it sum to %s shares, worth %s x %s x %s = %s uosmo", n.Height, denom, v, stake.FloatString(3), cnt, sum, sum, m.FloatString(18), oneMinusRf.FloatString(18), V.FloatString(6))
+					return false
+				}
+				run.Probe("stake-after-refresh-checked-after-slash")
+				continue
 			}
 			if exact {
 				run.Max("max/stake-after-refresh-milliunits", int64(milli))
